@@ -41,6 +41,7 @@ def run(ctx) -> None:
     ctx.rule("R4", "_cmpkey sentinel table and tuple order")
     ctx.rule("R5", "parse falls back only on InvalidVersion; regex anchored, VERBOSE|IGNORECASE")
     ctx.rule("R6", "every ordering comparison / sort key in cli resolves to version.parse_version")
+    ctx.rule("R7", "canonical printing: optional segments tested with `is not None` (0 is a valid number); spellings lower-cased before normalisation")
 
     base = prog.klass(f"{M}._BaseVersion")
     n = 0
@@ -113,21 +114,14 @@ def run(ctx) -> None:
     ck = prog.function(f"{M}._cmpkey")
     ctx.visit(ck.fq)
     cfg = cfgs.get(ck.fq)
-    pc = PathCond(cfg)
+    from sa.pathcond import assign_facts, ifexp_atoms
     need = ["pre is None", "post is None", "dev is None", "local is None"]
-    ctx.require(all(a in pc.atoms for a in need), f"_cmpkey atoms changed: {pc.atoms}")
+    pc = PathCond(cfg, extra_atoms=list(dict.fromkeys(need + ifexp_atoms(ck.node))))
     PRE, POST, DEV, LOC = (BF.var(a) for a in need)
     assigns: T.Dict[T.Tuple[str, str], BF] = {}
-    for nd in cfg.nodes:
-        if nd.kind == "stmt" and nd.id in cfg.reachable():
-            tgt = val = None
-            if isinstance(nd.ast, ast.Assign) and isinstance(nd.ast.targets[0], ast.Name):
-                tgt, val = nd.ast.targets[0].id, nd.ast.value
-            elif isinstance(nd.ast, ast.AnnAssign) and isinstance(nd.ast.target, ast.Name) and nd.ast.value is not None:
-                tgt, val = nd.ast.target.id, nd.ast.value
-            if tgt in ("_pre", "_post", "_dev", "_local"):
-                key = (tgt, unparse(val) if not isinstance(val, ast.Call) else "<computed>")
-                assigns[key] = assigns.get(key, BF.false()) | pc.reach(nd.id)
+    for tgt, val, cond, _st in assign_facts(cfg, pc, ("_pre", "_post", "_dev", "_local")):
+        key = (tgt, unparse(val) if not isinstance(val, ast.Call) else "<computed>")
+        assigns[key] = assigns.get(key, BF.false()) | cond
     spec = {
         ("_pre", "NegativeInfinity"): PRE & POST & ~DEV,
         ("_pre", "Infinity"): PRE & ~(PRE & POST & ~DEV),
@@ -139,13 +133,15 @@ def run(ctx) -> None:
         ("_local", "NegativeInfinity"): LOC,
         ("_local", "<computed>"): ~LOC,
     }
-    ctx.floor("R4", "sentinel assignments in _cmpkey", len(assigns), 9)
+    ctx.floor("R4", "sentinel assignments in _cmpkey", len(assigns), 6)
     for key, want in spec.items():
         got = assigns.get(key)
         ok = got is not None and got.project(need).equiv(want)
+        if got is None:
+            got = BF.false()
         ctx.check("R4", ok, f"_cmpkey: {key[0]} := {key[1]} iff {want.to_dnf()}", f"{M}._cmpkey: segment rule for {key[0]} := {key[1]} changed",
-                  f"assigned when {got.project(need).to_dnf() if got is not None else 'never'}; PEP 440 rule: {want.to_dnf()}", loc=ck.loc(),
-                  witness=got.project(need).diff_witness(want) if got is not None else None)
+                  f"assigned when {got.project(need).to_dnf()}; PEP 440 rule: {want.to_dnf()}", loc=ck.loc(),
+                  witness=got.project(need).diff_witness(want))
     for key in assigns:
         if key not in spec:
             ctx.bad("R4", f"{M}._cmpkey: unexpected assignment {key[0]} := {key[1]}", "", loc=ck.loc())
@@ -187,7 +183,7 @@ def run(ctx) -> None:
             if isinstance(nd, ast.Compare) and any(isinstance(o, (ast.Lt, ast.LtE, ast.Gt, ast.GtE)) for o in nd.ops):
                 operands = [nd.left] + list(nd.comparators)
                 names = {x.id for o in operands for x in ast.walk(o) if isinstance(x, ast.Name)} | {x.attr for o in operands for x in ast.walk(o) if isinstance(x, ast.Attribute)}
-                if not (names & version_names):
+                if not (names & version_names) and not any("version" in nm.lower() for nm in names):
                     continue
                 n_cmp += 1
                 ok = all(isinstance(o, ast.Call) and prog.resolve_call(fn, o, types, count=False).name == "version.parse_version" for o in operands)
@@ -203,3 +199,31 @@ def run(ctx) -> None:
                 ctx.check("R6", ok, f"{fn.fq} L{nd.lineno}: tags sorted with key=version.parse_version", f"{fn.fq}: tags are sorted without version.parse_version", f"`{txt[:70]}`", loc=fn.loc(nd))
     ctx.floor("R6", "version ordering comparisons in cli", n_cmp, 2)
     ctx.floor("R6", "tag sort sites in cli", n_sort, 1)
+
+    # ---------------------------------------------------------------- R7
+    vs = prog.klass(f"{M}.Version").methods.get("__str__")
+    ctx.require(vs is not None, "Version.__str__ vanished")
+    ctx.visit(vs.fq)
+    n_seg = 0
+    for st in walk_no_nested(vs.node):
+        if not isinstance(st, ast.If):
+            continue
+        segs = [x for x in ast.walk(st.test) if isinstance(x, ast.Attribute) and x.attr in ("pre", "post", "dev", "local", "epoch") and unparse(x.value) == "self"]
+        if not segs:
+            continue
+        n_seg += 1
+        seg = segs[0].attr
+        t = st.test
+        if seg == "epoch":
+            continue
+        good = isinstance(t, ast.Compare) and isinstance(t.ops[0], ast.IsNot) and isinstance(t.comparators[0], ast.Constant) and t.comparators[0].value is None
+        ctx.check("R7", good, f"Version.__str__: segment '{seg}' printed when it `is not None`", f"{M}.Version.__str__: segment '{seg}' is tested by truthiness (a number of 0 is dropped)",
+                  f"`if {unparse(t)}`: 1.0.{seg}0 would print without its {seg} segment", loc=vs.loc(st), witness=f"1.0.{seg}0")
+    ctx.floor("R7", "optional segments in Version.__str__", n_seg, 5)
+    plv = prog.function(f"{M}._parse_letter_version")
+    g = cfgs.get(plv.fq)
+    lowers = [n for n in g.nodes if n.kind == "stmt" and isinstance(n.ast, ast.Assign) and unparse(n.ast.targets[0]) == plv.params[0] and unparse(n.ast.value) == f"{plv.params[0]}.lower()"]
+    tests = [n for n in g.nodes if n.kind == "test" and isinstance(n.ast, ast.Compare) and unparse(n.ast.left) == plv.params[0] and isinstance(n.ast.ops[0], (ast.Eq, ast.In))]
+    ok = len(lowers) == 1 and tests and all(t.id not in g.reachable(blocked_nodes=[lowers[0].id]) for t in tests)
+    ctx.check("R7", ok, "_parse_letter_version lower-cases the letter before comparing spellings (the regex is case-insensitive)",
+              f"{M}._parse_letter_version: alternate spellings are compared before lower-casing", "e.g. 1.0ALPHA1 is not normalised to 1.0a1", loc=plv.loc(), witness="1.0ALPHA1")
